@@ -19,6 +19,8 @@ const rule = "per dialect (MySQL, PostgreSQL, SQLite differs; no database): a fe
 	"non-interfering elementary edits from a catalogue (one entry per change kind the differ can emit); exhaustive slice = every catalogue edit at every applicable site, at schema, realm and table level; random = sets of 0-8 edits, optionally with the " +
 	"declaration order of tables/columns/indexes/FKs/attributes of the second graph permuted. Oracle: the flattened change set (DiffNormalized, the CLI's mode) equals the union of the edits' expected descriptors as a multiset " +
 	"(nothing missing, nothing extra, nothing twice, kind flags exact); empty edit sets give the null relations diff(S,S), diff(S,copy), diff(S,permutation). " +
+	"Generated-name twins: any subset of the base indexes carries the database-generated name (MySQL c/c_2, PostgreSQL <t>_<cols>_key, SQLite sqlite_autoindex_<t>_<n>) on the current side and no name on the desired side " +
+	"(kept => no change; dropped => DropIndex of the generated name; uniqueness flipped => DropIndex+AddIndex), combined with the catalogue including additions of further unnamed indexes. " +
 	"non-trivial = >=1 edit, or a non-identity permutation; distinct key = (dialect, level, sorted edit kinds+sites, permuted?)"
 
 var dialects = []string{"mysql", "postgres", "sqlite"}
@@ -79,7 +81,23 @@ func genCase(t *rapid.T) Case {
 		base = reduce(t, base)
 	}
 	c := Case{Dialect: d, Base: base, Level: rapid.SampledFrom([]string{"schema", "schema", "realm", "table"}).Draw(t, "level")}
-	c.Edits = pickSites(t, Sites(d, base), rapid.IntRange(0, 8).Draw(t, "nedits"))
+	sites := AllSites(d, base)
+	if rapid.IntRange(0, 2).Draw(t, "twins") == 0 {
+		for _, tw := range TwinCandidates(d, base) {
+			if rapid.Bool().Draw(t, "twin") {
+				tw.Op = rapid.SampledFrom([]string{"keep", "keep", "keep", "drop", "flip-unique"}).Draw(t, "twinop")
+				c.Twins = append(c.Twins, tw)
+			}
+		}
+		var ok []Site
+		for _, st := range sites {
+			if !TwinConflict(st, c.Twins) {
+				ok = append(ok, st)
+			}
+		}
+		sites = ok
+	}
+	c.Edits = pickSites(t, sites, rapid.IntRange(0, 8).Draw(t, "nedits"))
 	if rapid.Bool().Draw(t, "permute") {
 		c.Perm = int64(rapid.IntRange(1, 1<<30).Draw(t, "perm"))
 	}
@@ -98,10 +116,19 @@ func mkCheck(col *ev.Collector) func(Case) error {
 		if len(c.Edits) == 0 {
 			col.Class(c.Dialect + "/null-relation")
 		}
-		if len(c.Edits) > 0 || c.Perm != 0 {
-			col.NonTrivial(fmt.Sprintf("%s|%s|%s|%v", c.Dialect, c.Level, strings.Join(ks, ","), c.Perm != 0))
+		var tws []string
+		for _, tw := range c.Twins {
+			col.Class(c.Dialect + "/generated-name-twin/" + tw.Op)
+			tws = append(tws, tw.Index+":"+tw.Op)
 		}
-		col.Sample(fmt.Sprintf("%s/%d-edits", c.Dialect, min(len(c.Edits), 3)), Case{Dialect: c.Dialect, Edits: c.Edits, Perm: c.Perm, Level: c.Level})
+		if len(c.Edits) > 0 || c.Perm != 0 || len(c.Twins) > 0 {
+			col.NonTrivial(fmt.Sprintf("%s|%s|%s|%v|%s", c.Dialect, c.Level, strings.Join(ks, ","), c.Perm != 0, strings.Join(tws, ",")))
+		}
+		sk := fmt.Sprintf("%s/%d-edits", c.Dialect, min(len(c.Edits), 3))
+		if len(c.Twins) > 0 {
+			sk += "/twins"
+		}
+		col.Sample(sk, Case{Dialect: c.Dialect, Edits: c.Edits, Perm: c.Perm, Level: c.Level, Twins: c.Twins})
 		return err
 	}
 }
@@ -114,7 +141,7 @@ func TestCheck(t *testing.T) {
 	nsites := 0
 	for _, d := range dialects {
 		base := Base(d)
-		sites := Sites(d, base)
+		sites := AllSites(d, base)
 		nsites += len(sites)
 		for _, level := range []string{"schema", "realm", "table"} {
 			// null relations
@@ -142,7 +169,7 @@ func TestCheck(t *testing.T) {
 		base := Base(d)
 		groups := map[string][]Site{}
 		var order []string
-		for _, st := range Sites(d, base) {
+		for _, st := range AllSites(d, base) {
 			if !ModifyKind(st.E.Kind) {
 				continue
 			}
@@ -185,6 +212,53 @@ func TestCheck(t *testing.T) {
 				}
 				if !ev.Each(col, "exhaustive-same-object-combos", Case{Dialect: d, Base: base, Level: "schema", Edits: es}, check, known) {
 					return
+				}
+			}
+		}
+	}
+	// indexes that carry a database-generated name on the current side and no name on the desired side
+	// (similar-unnamed-index matching): every subset kept => empty diff; the full set kept x every other catalogue edit;
+	// every single twin dropped / made dissimilar x {nothing, every unnamed-index addition}
+	for _, d := range dialects {
+		base := Base(d)
+		cands := TwinCandidates(d, base)
+		sites := AllSites(d, base)
+		run := func(tw []Twin, es []EditRef, level string) bool {
+			i++
+			if !col.Mine(i) {
+				return true
+			}
+			return ev.Each(col, "exhaustive-generated-name-twins", Case{Dialect: d, Base: base, Level: level, Edits: es, Twins: tw}, check, known)
+		}
+		for mask := 1; mask < 1<<len(cands); mask++ {
+			var tw []Twin
+			for k := range cands {
+				if mask&(1<<k) != 0 {
+					tw = append(tw, cands[k])
+				}
+			}
+			for _, level := range []string{"schema", "table"} {
+				if !run(tw, nil, level) {
+					return
+				}
+			}
+		}
+		for _, st := range sites {
+			if !TwinConflict(st, cands) && !run(cands, []EditRef{st.E}, "schema") {
+				return
+			}
+		}
+		for k := range cands {
+			for _, op := range []string{"drop", "flip-unique"} {
+				tw := append([]Twin{}, cands...)
+				tw[k].Op = op
+				if !run(tw, nil, "schema") {
+					return
+				}
+				for _, st := range sites {
+					if st.E.Kind == "add-unnamed-index" && !TwinConflict(st, cands) && !run(tw, []EditRef{st.E}, "schema") {
+						return
+					}
 				}
 			}
 		}
